@@ -403,6 +403,11 @@ func findMatch(safeprimes []*big.Int, param *SystemParameters, p *big.Int,
 }
 
 func generateSafePrimePair(param *SystemParameters) (*big.Int, *big.Int, error) {
+	// The modulus is the product of two safe primes of half its length. The product of two primes
+	// of (Ln-1)/2 bits never has an odd number Ln of bits: the search below would never end.
+	if param.Ln%2 != 0 {
+		return nil, nil, errors.New("modulus length must be even")
+	}
 	primeSize := param.Ln / 2
 
 	// Declare and allocate all vars outside the loop and outside the helper function above
